@@ -168,7 +168,6 @@ func toIfaces(ps []string) []interface{} {
 
 // ================================================================ C08
 
-
 // sepScenario builds a Map and a sub-key TEXT that parses validly but DIFFERENTLY under the two field
 // separators "|" and ":" and selects a different record under each ("at|12:30": at == "12:30" under "|",
 // "at|12" == "30" under ":"). Used twice in a row, once per separator: nothing remembered from the first
